@@ -139,6 +139,9 @@ func (w *World) Logf(format string, a ...interface{}) {
 	w.mu.Unlock()
 }
 
+// Verbose reports whether the event log text is kept (replays, samples): scenarios may log more then.
+func (w *World) Verbose() bool { return w.cfg.KeepTrace }
+
 // Now is simulated time since the start of the run.
 func (w *World) Now() time.Duration { return time.Since(w.start) }
 
